@@ -12,7 +12,12 @@
 #define memset(d, c, n)		verif_memset ((d), (c), (n))
 void * verif_memcpy (void *dst, const void *src, size_t n) ;
 void * verif_memset (void *dst, int c, size_t n) ;
-#ifdef LAYOUT_MS
+#ifdef LAYOUT_GSM
+#include "gsm610.c"
+#define IMA_ADPCM_PRIVATE	GSM610_PRIVATE		/* same reader state fields; mono, the sample buffer is a member array */
+#define ima_read_block		gsm610_read_block
+#define RET_T				int
+#elif defined (LAYOUT_MS)
 #include "ms_adpcm.c"
 #define IMA_ADPCM_PRIVATE	MSADPCM_PRIVATE		/* same reader state fields */
 #define ima_read_block		msadpcm_read_block
@@ -74,8 +79,13 @@ __CPROVER_ensures (pima->blockcount == __CPROVER_old (pima->blockcount) + 1 && p
 int vin_len, vin_sc, vin_bc, vin_blocks ;
 
 static RET_T ima_read_block (SF_PRIVATE *psf, IMA_ADPCM_PRIVATE *pima, short *ptr, int len)
+#ifdef LAYOUT_GSM
+__CPROVER_requires (__CPROVER_is_fresh (psf, sizeof (SF_PRIVATE)) && __CPROVER_is_fresh (pima, sizeof (IMA_ADPCM_PRIVATE)))
+__CPROVER_requires (pima->samplesperblock == SPB && 0 <= pima->blocks && pima->blocks <= (1 << 20) && pima->blocks == vin_blocks)
+#else
 __CPROVER_requires (__CPROVER_is_fresh (psf, sizeof (SF_PRIVATE)) && __CPROVER_is_fresh (pima, sizeof (IMA_ADPCM_PRIVATE)) && __CPROVER_is_fresh (pima->samples, SPB * CH * 2))
 __CPROVER_requires (pima->channels == CH && pima->samplesperblock == SPB && 0 <= pima->blocks && pima->blocks <= (1 << 20) && pima->blocks == vin_blocks)
+#endif
 __CPROVER_requires (0 <= pima->samplecount && pima->samplecount <= SPB && pima->samplecount == vin_sc && 0 <= pima->blockcount && pima->blockcount <= pima->blocks && pima->blockcount == vin_bc)
 #ifndef LAYOUT_MS
 __CPROVER_requires (__CPROVER_obeys_contract (pima->decode_block, decode_block_c))
@@ -83,7 +93,11 @@ __CPROVER_requires (__CPROVER_obeys_contract (pima->decode_block, decode_block_c
 __CPROVER_requires (g_decode_failed == 0)
 __CPROVER_requires (0 < len && len <= LEN_MAX && len % CH == 0 && len == vin_len && __CPROVER_is_fresh (ptr, (size_t) len * 2) && ptr == g_ptr)
 __CPROVER_requires (g_decode_calls == 0 && g_zero_filled == 0 && g_zero < (size_t) len * 2)
+#ifdef LAYOUT_GSM
+__CPROVER_assigns (g_decode_calls, g_decode_failed, g_zero_filled, g_zero_from, psf->error, __CPROVER_object_whole (ptr), __CPROVER_object_whole (pima))
+#else
 __CPROVER_assigns (pima->blockcount, pima->samplecount, g_decode_calls, g_decode_failed, g_zero_filled, g_zero_from, psf->error, __CPROVER_object_whole (ptr), __CPROVER_object_whole (pima->samples))
+#endif
 __CPROVER_ensures (0 <= __CPROVER_return_value && __CPROVER_return_value <= vin_len && __CPROVER_return_value % CH == 0) /*@C05.impl_ret_range*/ /*@C15.impl_ret_range*/
 __CPROVER_ensures (!g_decode_failed ==> (long) __CPROVER_return_value == ((long) g_decode_calls * SPB + pima->samplecount - vin_sc) * CH) /*@C05.items_returned_are_the_items_consumed*/ /*@C06.items_returned_are_the_items_consumed*/
 __CPROVER_ensures ((__CPROVER_return_value < vin_len && !g_decode_failed) ==> (pima->blockcount >= vin_blocks && pima->samplecount >= SPB)) /*@C05.short_only_at_end_of_data_or_when_the_decoder_could_not_read*/
